@@ -3,6 +3,7 @@
 package c09
 
 import (
+	"strings"
 	"errors"
 	"fmt"
 	"reflect"
@@ -192,7 +193,8 @@ func cases() []rcase {
 				}{3, "x"}, unspecified, "same-size pointer to identical layout", 5, unspecified, "int for pointer (same size)", int8(1), reject, "1-byte value for pointer", "str", reject, "16-byte value for pointer")},
 		{name: "interface{}", fn: RIface, call: func() interface{} { return RIface() }, orig: func() bool { return RIface() == "orig" },
 			values: vs(nil, typedNil, "untyped nil", 5, deliver, "int boxed", int8(5), deliver, "int8 boxed", "s", deliver, "string boxed", S{1, "a"}, deliver, "struct boxed", theS, deliver, "pointer boxed",
-				(*S)(nil), deliver, "typed nil pointer boxed", 2.5, deliver, "float boxed", []int{1, 2}, deliver, "slice boxed", D(9), deliver, "named int boxed", [3]int{1, 2, 3}, deliver, "array boxed")},
+				(*S)(nil), deliver, "typed nil pointer boxed", 2.5, deliver, "float boxed", []int{1, 2}, deliver, "slice boxed", D(9), deliver, "named int boxed", [3]int{1, 2, 3}, deliver, "array boxed",
+				[]interface{}{"alice"}, deliver, "[not Returns] one-element []interface{} boxed as it is", []interface{}{1, "b"}, deliver, "[not Returns] two-element []interface{} boxed as it is")},
 		{name: "error", fn: RErr, call: func() interface{} { return RErr() }, orig: func() bool { return RErr() != nil && RErr().Error() == "orig" },
 			values: vs(nil, typedNil, "untyped nil", &MyErr{3}, deliver, "pointer error", ValErr{4}, deliver, "value error", (*MyErr)(nil), deliver, "typed nil pointer in error", errors.New("e"), deliver, "errors.New")},
 		{name: "Stringer", fn: RStringer, call: func() interface{} { return RStringer() }, orig: func() bool { return RStringer().String() == "orig" },
@@ -280,7 +282,10 @@ func TestC09(t *testing.T) {
 		ft := reflect.TypeOf(rc.fn)
 		rt := ft.Out(0)
 		for _, val := range rc.values {
-			for _, api := range []string{"Return", "Returns", "When().Return"} {
+			for _, api := range []string{"Return", "Returns", "When().Return", "Return;Return"} {
+				if api == "Returns" && strings.HasPrefix(val.note, "[not Returns]") {
+					continue // Returns documents a []interface{} element as the tuple of one call's results
+				}
 				c := map[string]interface{}{"result_type": rc.name, "supplied": fmt.Sprintf("%T(%v)", val.v, val.v), "api": api, "note": val.note}
 				rep.Journal(c)
 				b := mocker.Create()
@@ -292,6 +297,10 @@ func TestC09(t *testing.T) {
 						b.Func(rc.fn).Return(val.v)
 					case "Returns":
 						b.Func(rc.fn).Returns(val.v, val.v)
+					case "Return;Return":
+						// a second Return statement (through a fresh lookup) goes through the existing stub
+						b.Func(rc.fn).Return(val.v)
+						b.Func(rc.fn).Return(val.v)
 					default:
 						b.Func(rc.fn).When().Return(val.v)
 					}
@@ -575,6 +584,32 @@ func TestC09(t *testing.T) {
 			if perr != nil || a != 1 || c != 0 {
 				rep.Violate(key, fmt.Sprintf("nil / empty When argument for %s parameter: the equal argument -> %d (want 1), the other one -> %d (want 0), panic %v", p.name, a, c, perr), nil)
 			}
+		}
+		b.Reset()
+	}
+	// ---- values handed over as a spread slice the caller goes on using: what counts is the value at the time of the call
+	for _, api := range []string{"Return", "Returns", "When().Return"} {
+		buf := []interface{}{"alice"}
+		b := mocker.Create()
+		var perr interface{}
+		var got interface{}
+		func() {
+			defer func() { perr = recover() }()
+			switch api {
+			case "Return":
+				b.Func(RIface).Return(buf...)
+			case "Returns":
+				b.Func(RIface).Returns(buf...)
+			default:
+				b.Func(RIface).When().Return(buf...)
+			}
+			buf[0] = 42 // the caller's scratch buffer is reused for the next stub
+			got = RIface()
+		}()
+		rep.Eval(1)
+		rep.Class("reused-argument-buffer/" + api)
+		if perr != nil || got != "alice" {
+			rep.Violate("C09/silently-altered", fmt.Sprintf("%s(buf...) with buf = [\"alice\"], then buf[0] = 42: the stubbed function returns %#v (panic %v), want \"alice\"", api, got, perr), map[string]interface{}{"api": api})
 		}
 		b.Reset()
 	}
